@@ -534,6 +534,15 @@ impl Processor {
     }
 }
 
+#[cfg(all(test, feature = "ipa-verif"))]
+impl Processor {
+    /// Read/replace access to the query table for the verification harness (test builds with
+    /// feature `ipa-verif` only).
+    pub(super) fn ipa_verif_queries(&self) -> &RunningQueries {
+        &self.queries
+    }
+}
+
 #[derive(Clone, Serialize)]
 pub struct QueryKilled(pub QueryId);
 
